@@ -276,7 +276,7 @@ func main() {
 		Engine:   "shard-cluster",
 		Level:    "exploration",
 		Rule: "a case is one configuration (n, m, hereditary predicate, placement as preprune / prune / both): all m shard iterators are created and advanced by one consumer in a seeded interleaving (round-robin, one after another, tape-random) until all are exhausted (and must stay exhausted); every yielded value must be a well-formed graph on n vertices, the independent canonical codes of all yielded graphs must be pairwise distinct and their set must equal the independently generated set of classes satisfying the predicate (unpruned: additionally the count must equal A000088(n)). " +
-			"Enumerated: all (n <= 7, m <= 12) unpruned and with each of 8 listed predicates x 3 placements; n = 8 unpruned for m <= 8 and predicates for m in {1,2,3,5} (thorough: m <= 16 resp. 12; n = 9 unpruned for 7 values of m and the strongly pruned families). Random runs draw n <= 7, m <= 10 and a tape-drawn hereditary predicate (listed, induced-H-free for a random H on 2-4 vertices, or a conjunction). Non-trivial = at least 4 graphs yielded; distinct = distinct fingerprints of the yielded code sequences.",
+			"Enumerated: all (n <= 7, m <= 12) unpruned and with each of 8 listed predicates x 3 placements; n = 8 unpruned for m <= 8 and predicates for m in {1,2,3,5} (thorough: m <= 16 resp. 12; n = 9 unpruned for 7 values of m and the strongly pruned families). Random runs draw n <= 7, m <= 10 (one in six: m from {13,...,257}) and a tape-drawn hereditary predicate (listed, induced-H-free for a random H on 2-4 vertices, or a conjunction). Non-trivial = at least 4 graphs yielded; distinct = distinct fingerprints of the yielded code sequences.",
 		Assumptions: []string{
 			"predicates are hereditary (closed under induced subgraphs) by construction",
 			"n <= 8 (9 in thorough for some families): a defect that needs more vertices is not reached",
@@ -303,6 +303,11 @@ func main() {
 			}
 			t := r.T
 			c := config{n: t.Range(0, 7), m: 1 + t.Draw(10), placement: t.Draw(3)}
+			if t.Chance(1, 6) {
+				// unusual split moduli (far more shards than choices at the split level)
+				c.m = []int{13, 16, 17, 20, 31, 32, 33, 64, 65, 70, 100, 257}[t.Draw(12)]
+				r.Probe("large-split-modulus")
+			}
 			if t.Chance(1, 5) {
 				runConfig(r, c, "none", nil)
 				return
